@@ -25,7 +25,20 @@
 //!            the record stored under it is the one that call created (from, to, type, direction and a
 //!            per-call unique payload), plus the structural walker.
 //!
-//! `--part seq|concurrent|stress|det|batch|all` selects parts (`concurrent` = stress + det + batch, used by the TSan leg).
+//!  bulk    : random single-threaded programs made of the bulk calls, on CLUSTERS: 1-3 hubs get a fan of edges
+//!            to a pool of leaves, to each other and to themselves (below, at and above PARALLEL_THRESHOLD;
+//!            built by batch_create_edges in one piece, in chunks or edge by edge), then 4-13 calls follow:
+//!            batch_delete_nodes on a node together with some or all of its neighbours (the node first, last
+//!            or anywhere; unrelated, repeated, already deleted and never created ids mixed in),
+//!            batch_delete_edges on some or all edges of one node, batch_create_edges that regrow a hub (or are
+//!            refused because of one missing endpoint), batch_create_nodes (also >= 100 at once),
+//!            batch_update_nodes, single delete_node / delete_edge / create_edge in between. After every call
+//!            the walker judges the structure on what the engine itself reports, then the engine's node and
+//!            edge sets (records included) are compared with the reference multigraph, in which every listed
+//!            node / edge that existed is gone after a bulk deletion ("deleting a node removes all of its
+//!            edges"), and the ids the call reports as deleted are compared with the listed ones that existed.
+//!
+//! `--part seq|bulk|concurrent|stress|det|batch|all` selects parts (`concurrent` = stress + det + batch, used by the TSan leg).
 
 use common::sched::{self, Gate};
 use common::*;
@@ -1468,6 +1481,558 @@ fn batch_case(case_seed: u64, r: &mut Report) {
 }
 
 // ------------------------------------------------------------------------------------------------
+// part bulk: single-threaded programs made of the bulk calls, on clusters of adjacent nodes
+// ------------------------------------------------------------------------------------------------
+
+/// a node counts as high-degree when delete_node takes its parallel branch (PARALLEL_THRESHOLD)
+const HIGH_DEGREE: usize = 100;
+const NO_SUCH_NODE: u64 = 88_000_000;
+const NO_SUCH_EDGE: u64 = 77_000_000;
+
+#[derive(Clone, Debug)]
+enum BulkOp {
+    CreateEdges(Vec<ESpec>),
+    CreateEdge(ESpec),
+    CreateNodes(usize),
+    DeleteNodes(Vec<u64>),
+    DeleteEdges(Vec<u64>),
+    DeleteNode(u64),
+    DeleteEdge(u64),
+    UpdateNodes(Vec<u64>),
+    ReadDeleted,
+}
+
+/// number of distinct edges touching each node
+fn degrees(m: &Truth) -> HashMap<u64, usize> {
+    let mut deg: HashMap<u64, usize> = HashMap::new();
+    for e in m.edges.values() {
+        *deg.entry(e.from).or_default() += 1;
+        if e.to != e.from {
+            *deg.entry(e.to).or_default() += 1;
+        }
+    }
+    deg
+}
+
+/// the node a bulk call is built around: mostly the one with the most edges
+fn bulk_focus(rng: &mut Rng, nodes: &[u64], deg: &HashMap<u64, usize>) -> u64 {
+    if rng.chance(3, 5) {
+        nodes.iter().copied().max_by_key(|n| deg.get(n).copied().unwrap_or(0)).unwrap_or(nodes[0])
+    } else {
+        nodes[rng.below(nodes.len())]
+    }
+}
+
+fn bulk_edge_spec(rng: &mut Rng, focus: u64, nodes: &[u64], hubs: &[u64], wseq: &mut i64) -> ESpec {
+    let other = if rng.chance(1, 30) {
+        focus
+    } else if !hubs.is_empty() && rng.chance(1, 5) {
+        hubs[rng.below(hubs.len())]
+    } else {
+        nodes[rng.below(nodes.len())]
+    };
+    let (from, to) = if rng.bool() { (focus, other) } else { (other, focus) };
+    *wseq += 1;
+    ESpec { from, to, directed: rng.chance(2, 3), ty: TYPES[rng.below(3)], w: *wseq }
+}
+
+/// id list for batch_delete_nodes: a node, some (sometimes all) of its neighbours, a few unrelated nodes,
+/// now and then a deleted / never created id or a repeated id; the focus first, last or anywhere
+fn bulk_node_list(rng: &mut Rng, m: &Truth, dead_nodes: &[u64]) -> Vec<u64> {
+    let nodes: Vec<u64> = m.nodes.iter().copied().collect();
+    if nodes.is_empty() {
+        return vec![if dead_nodes.is_empty() { NO_SUCH_NODE } else { dead_nodes[rng.below(dead_nodes.len())] }];
+    }
+    let deg = degrees(m);
+    let focus = bulk_focus(rng, &nodes, &deg);
+    let mut nb: Vec<u64> = m.neighbors(focus, None, Direction::Both).into_iter().collect();
+    rng.shuffle(&mut nb);
+    let k = if rng.chance(1, 8) { nb.len() } else { rng.below(nb.len().min(4) + 1) };
+    let mut rest: Vec<u64> = nb.into_iter().take(k).collect();
+    for _ in 0..rng.below(3) {
+        rest.push(nodes[rng.below(nodes.len())]);
+    }
+    if !dead_nodes.is_empty() && rng.chance(1, 6) {
+        rest.push(dead_nodes[rng.below(dead_nodes.len())]);
+    }
+    if rng.chance(1, 10) {
+        rest.push(NO_SUCH_NODE + rng.below(10) as u64);
+    }
+    if !rest.is_empty() && rng.chance(1, 6) {
+        let d = rest[rng.below(rest.len())];
+        rest.push(d);
+    }
+    let with_focus = rest.is_empty() || rng.chance(9, 10);
+    match rng.below(3) {
+        0 => {
+            let mut l = if with_focus { vec![focus] } else { vec![] };
+            l.extend(rest);
+            l
+        }
+        1 => {
+            if with_focus {
+                rest.push(focus);
+            }
+            rest
+        }
+        _ => {
+            if with_focus {
+                rest.push(focus);
+            }
+            rng.shuffle(&mut rest);
+            rest
+        }
+    }
+}
+
+/// id list for batch_delete_edges: some (sometimes all) edges of one node, a few unrelated ones, now and
+/// then a deleted / never created id or a repeated id
+fn bulk_edge_list(rng: &mut Rng, m: &Truth, dead_edges: &[u64]) -> Vec<u64> {
+    let ids: Vec<u64> = m.edges.keys().copied().collect();
+    if ids.is_empty() {
+        return vec![if dead_edges.is_empty() { NO_SUCH_EDGE } else { dead_edges[rng.below(dead_edges.len())] }];
+    }
+    let nodes: Vec<u64> = m.nodes.iter().copied().collect();
+    let deg = degrees(m);
+    let focus = if nodes.is_empty() { 0 } else { bulk_focus(rng, &nodes, &deg) };
+    let mut inc: Vec<u64> = m.edges.iter().filter(|(_, e)| e.from == focus || e.to == focus).map(|(&id, _)| id).collect();
+    rng.shuffle(&mut inc);
+    let k = if rng.chance(1, 5) { inc.len() } else { (1 + rng.below(8)).min(inc.len()) };
+    let mut list: Vec<u64> = inc.into_iter().take(k).collect();
+    for _ in 0..rng.below(4) {
+        list.push(ids[rng.below(ids.len())]);
+    }
+    if !dead_edges.is_empty() && rng.chance(1, 6) {
+        list.push(dead_edges[rng.below(dead_edges.len())]);
+    }
+    if rng.chance(1, 10) {
+        list.push(NO_SUCH_EDGE + rng.below(10) as u64);
+    }
+    if !list.is_empty() && rng.chance(1, 6) {
+        let d = list[rng.below(list.len())];
+        list.push(d);
+    }
+    if list.is_empty() {
+        list.push(ids[rng.below(ids.len())]);
+    }
+    if rng.bool() {
+        rng.shuffle(&mut list);
+    }
+    list
+}
+
+fn bulk_random_op(rng: &mut Rng, m: &Truth, dead_nodes: &[u64], dead_edges: &[u64], wseq: &mut i64) -> BulkOp {
+    let nodes: Vec<u64> = m.nodes.iter().copied().collect();
+    match rng.weighted(&[34, 22, 14, 6, 6, 4, 6, 4, 4]) {
+        0 => BulkOp::DeleteNodes(bulk_node_list(rng, m, dead_nodes)),
+        1 => BulkOp::DeleteEdges(bulk_edge_list(rng, m, dead_edges)),
+        2 if !nodes.is_empty() => {
+            // regrow: a batch around one node, sometimes large enough to make it high-degree again
+            let deg = degrees(m);
+            let focus = bulk_focus(rng, &nodes, &deg);
+            let n = if rng.chance(1, 4) { HIGH_DEGREE + rng.below(30) } else { 1 + rng.below(30) };
+            let mut specs: Vec<ESpec> = (0..n).map(|_| bulk_edge_spec(rng, focus, &nodes, &[], wseq)).collect();
+            if rng.chance(1, 8) {
+                // one endpoint that does not exist: the call has to refuse
+                let at = rng.below(specs.len());
+                specs[at].to = if dead_nodes.is_empty() || rng.bool() { NO_SUCH_NODE } else { dead_nodes[rng.below(dead_nodes.len())] };
+            }
+            BulkOp::CreateEdges(specs)
+        }
+        3 => BulkOp::CreateNodes(if rng.chance(1, 10) { HIGH_DEGREE + rng.below(20) } else { 1 + rng.below(4) }),
+        4 => BulkOp::DeleteNode(if nodes.is_empty() || rng.chance(1, 8) { dead_nodes.last().copied().unwrap_or(NO_SUCH_NODE) } else { nodes[rng.below(nodes.len())] }),
+        5 => {
+            let ids: Vec<u64> = m.edges.keys().copied().collect();
+            BulkOp::DeleteEdge(if ids.is_empty() || rng.chance(1, 8) { dead_edges.last().copied().unwrap_or(NO_SUCH_EDGE) } else { ids[rng.below(ids.len())] })
+        }
+        6 if !nodes.is_empty() => {
+            let mut ids: Vec<u64> = (0..1 + rng.below(4)).map(|_| nodes[rng.below(nodes.len())]).collect();
+            if rng.chance(1, 8) {
+                ids.push(dead_nodes.last().copied().unwrap_or(NO_SUCH_NODE));
+            }
+            BulkOp::UpdateNodes(ids)
+        }
+        7 if !nodes.is_empty() => {
+            let focus = nodes[rng.below(nodes.len())];
+            BulkOp::CreateEdge(bulk_edge_spec(rng, focus, &nodes, &[], wseq))
+        }
+        _ => BulkOp::ReadDeleted,
+    }
+}
+
+/// After one call: the structure is judged on what the engine itself reports (statement sentences 1-2 and
+/// the derived reads), then the engine's node and edge sets are compared with the model. With `adopt_extra`
+/// (a creation call that returned an error: the statement does not say whether part of it may have been
+/// carried out) only losses are judged and whatever else the engine holds is taken over into the model.
+fn bulk_compare(g: &GraphEngine, m: &mut Truth, adopt_extra: bool, rng: &mut Rng, counters: &mut BTreeMap<&'static str, u64>) -> Option<(&'static str, String)> {
+    let t = truth_from_engine(g);
+    let findings = walk(g, &t, rng, counters);
+    if let Some(f0) = findings.first() {
+        return Some((f0.kind, format!("{} (+{} more findings)", f0.detail, findings.len() - 1)));
+    }
+    let lost: Vec<u64> = m.nodes.difference(&t.nodes).copied().collect();
+    if !lost.is_empty() {
+        return Some(("node-lost", format!("nodes {:?} were never deleted but all_nodes() does not return them", lost)));
+    }
+    let lost: Vec<u64> = m.edges.keys().filter(|id| !t.edges.contains_key(id)).copied().collect();
+    if !lost.is_empty() {
+        return Some(("edge-lost", format!("edges {:?} were never deleted (nor their endpoints) but all_edges() does not return them", lost)));
+    }
+    for (id, e) in &m.edges {
+        if t.edges.get(id) != Some(e) {
+            return Some(("edge-record-differs", format!("edge {} was created as {:?}, all_edges() returns {:?}", id, e, t.edges.get(id))));
+        }
+    }
+    if adopt_extra {
+        m.nodes = t.nodes;
+        m.edges = t.edges;
+        return None;
+    }
+    let extra: Vec<u64> = t.nodes.difference(&m.nodes).copied().collect();
+    if !extra.is_empty() {
+        return Some(("node-not-removed", format!("nodes {:?} exist although they were deleted (or never created)", extra)));
+    }
+    let extra: Vec<u64> = t.edges.keys().filter(|id| !m.edges.contains_key(id)).copied().collect();
+    if !extra.is_empty() {
+        return Some(("edge-not-removed", format!("edges {:?} exist although they (or an endpoint) were deleted, or were never created: {:?}", extra, extra.iter().take(4).map(|id| t.edges.get(id)).collect::<Vec<_>>())));
+    }
+    None
+}
+
+fn bulk_case(case_seed: u64, deep: bool, r: &mut Report) {
+    let mut rng = Rng::new(case_seed);
+    let g = GraphEngine::new();
+    let mut m = Truth::default();
+    let mut dead_nodes: Vec<u64> = Vec::new();
+    let mut dead_edges: Vec<u64> = Vec::new();
+    let mut trace: Vec<String> = Vec::new();
+    let mut counters: BTreeMap<&'static str, u64> = BTreeMap::new();
+    let replay = json!({"part": "bulk", "case_seed": case_seed, "deep": deep});
+    let mut wseq = 0i64;
+    let (mut calls_checked, mut touching_deletions, mut max_degree) = (0u64, 0u64, 0usize);
+    let mut stats: BTreeMap<&'static str, u64> = BTreeMap::new();
+
+    macro_rules! fail {
+        ($op:expr, $kind:expr, $detail:expr) => {{
+            r.violation(
+                format!("bulk:{}:{}", $op, $kind),
+                format!("{} — after program (case_seed {}, {} tier sizes): {}", $detail, case_seed, if deep { "thorough" } else { "quick" }, trace.join("; ")),
+                replay.clone(),
+            );
+            return;
+        }};
+    }
+
+    // ---- script: the clusters. 1-3 hubs and a pool of leaves, every hub gets a fan of edges to leaves,
+    // other hubs and itself (both directions, directed and undirected, parallel edges), below, at and above
+    // the high-degree threshold; built through batch_create_edges in one piece, in chunks, or edge by edge
+    let hubs_n = 1 + rng.below(3);
+    let leaves_n = 3 + rng.below(if deep { 40 } else { 14 });
+    let mut script: VecDeque<(BulkOp, bool)> = VecDeque::new();
+    let setup = match g.batch_create_nodes((0..hubs_n + leaves_n).map(|i| NodeInput::new(vec![if i < hubs_n { "Hub".to_string() } else { "Leaf".to_string() }], props_v(0))).collect()) {
+        Ok(b) if b.created_ids.len() == hubs_n + leaves_n && b.created_ids.iter().collect::<BTreeSet<_>>().len() == hubs_n + leaves_n => b.created_ids,
+        other => {
+            r.violation("bulk:batch_create_nodes:op-result-unexpected", format!("batch_create_nodes of {} nodes on an empty engine returned {:?}", hubs_n + leaves_n, other.map_err(|e| e.to_string())), replay);
+            return;
+        }
+    };
+    m.nodes.extend(&setup);
+    let hubs: Vec<u64> = setup[..hubs_n].to_vec();
+    trace.push(format!("batch_create_nodes({})={:?} (hubs {:?})", hubs_n + leaves_n, setup, hubs));
+    let top = if deep { 400 } else { 170 };
+    for &hub in &hubs {
+        let fan = match rng.weighted(&[22, 10, 16, 52]) {
+            0 => rng.below(40),
+            1 => 88 + rng.below(12),
+            2 => 99 + rng.below(3),
+            _ => HIGH_DEGREE + rng.below(top - HIGH_DEGREE + 1),
+        };
+        let specs: Vec<ESpec> = (0..fan).map(|_| bulk_edge_spec(&mut rng, hub, &setup, &hubs, &mut wseq)).collect();
+        let mode = rng.below(4);
+        let mut i = 0;
+        while i < specs.len() {
+            let chunk = match mode {
+                0 => specs.len(),
+                1 => 1 + rng.below(40),
+                2 => 1,
+                _ => {
+                    if rng.bool() {
+                        1
+                    } else {
+                        1 + rng.below(120)
+                    }
+                }
+            }
+            .min(specs.len() - i);
+            let last = i + chunk == specs.len();
+            if chunk == 1 && rng.bool() {
+                script.push_back((BulkOp::CreateEdge(specs[i].clone()), last));
+            } else {
+                script.push_back((BulkOp::CreateEdges(specs[i..i + chunk].to_vec()), last || chunk > 1 && rng.chance(1, 3)));
+            }
+            i += chunk;
+        }
+    }
+    let mut random_left = 4 + rng.below(10);
+
+    loop {
+        let (op, check) = match script.pop_front() {
+            Some(x) => x,
+            None if random_left > 0 => {
+                random_left -= 1;
+                (bulk_random_op(&mut rng, &m, &dead_nodes, &dead_edges, &mut wseq), true)
+            }
+            None => break,
+        };
+        let opname: &'static str;
+        let mut adopt_extra = false;
+        // what the call reported, judged after the structure
+        let mut result_complaint: Option<String> = None;
+        match op {
+            BulkOp::CreateEdges(specs) => {
+                opname = if specs.len() >= HIGH_DEGREE { "batch_create_edges_large" } else { "batch_create_edges" };
+                let should_ok = specs.iter().all(|s| m.nodes.contains(&s.from) && m.nodes.contains(&s.to));
+                let input: Vec<EdgeInput> = specs.iter().map(|e| EdgeInput::new(e.from, e.to, e.ty, props_w(e.w), e.directed)).collect();
+                let res = g.batch_create_edges(input);
+                trace.push(format!(
+                    "batch_create_edges({} edges: {}{})={:?}",
+                    specs.len(),
+                    specs.iter().take(3).map(|s| format!("{}{}{}", s.from, if s.directed { "->" } else { "--" }, s.to)).collect::<Vec<_>>().join(","),
+                    if specs.len() > 3 { ",.." } else { "" },
+                    res.as_ref().map(|b| (b.created_ids.first().copied(), b.created_ids.last().copied())).map_err(|e| e.to_string())
+                ));
+                *stats.entry("bulk_create_edges_calls").or_insert(0) += 1;
+                match res {
+                    Ok(b) => {
+                        if !should_ok {
+                            fail!(opname, "op-result-unexpected", format!("batch_create_edges succeeded although an endpoint does not exist: {:?}", specs.iter().find(|s| !m.nodes.contains(&s.from) || !m.nodes.contains(&s.to))));
+                        }
+                        if b.created_ids.len() != specs.len() {
+                            fail!(opname, "create-returned-wrong-number-of-ids", format!("{} edges requested, {} ids returned", specs.len(), b.created_ids.len()));
+                        }
+                        for (sp, &id) in specs.iter().zip(&b.created_ids) {
+                            if m.edges.contains_key(&id) || dead_edges.contains(&id) {
+                                fail!(opname, "edge-id-reused", format!("batch_create_edges returned id {} which is already in use", id));
+                            }
+                            m.edges.insert(id, TEdge { from: sp.from, to: sp.to, directed: sp.directed, ty: sp.ty.to_string(), w: Some(sp.w) });
+                        }
+                        *stats.entry("bulk_edges_created_by_batches").or_insert(0) += specs.len() as u64;
+                    }
+                    Err(e) => {
+                        if should_ok {
+                            fail!(opname, "op-result-unexpected", format!("batch_create_edges between existing nodes failed: {}", e));
+                        }
+                        adopt_extra = true;
+                        *stats.entry("bulk_create_edges_refused").or_insert(0) += 1;
+                    }
+                }
+            }
+            BulkOp::CreateEdge(sp) => {
+                opname = "create_edge";
+                let should_ok = m.nodes.contains(&sp.from) && m.nodes.contains(&sp.to);
+                let res = g.create_edge(sp.from, sp.to, sp.ty, props_w(sp.w), sp.directed);
+                trace.push(format!("create_edge({}{}{})={:?}", sp.from, if sp.directed { "->" } else { "--" }, sp.to, res.as_ref().map_err(|e| e.to_string())));
+                match res {
+                    Ok(id) if should_ok => {
+                        if m.edges.contains_key(&id) || dead_edges.contains(&id) {
+                            fail!(opname, "edge-id-reused", format!("create_edge returned id {} which is already in use", id));
+                        }
+                        m.edges.insert(id, TEdge { from: sp.from, to: sp.to, directed: sp.directed, ty: sp.ty.to_string(), w: Some(sp.w) });
+                    }
+                    Err(GraphError::NodeNotFound(_)) if !should_ok => {}
+                    other => fail!(opname, "op-result-unexpected", format!("create_edge({:?}) = {:?} (endpoints exist: {})", sp, other.map_err(|e| e.to_string()), should_ok)),
+                }
+            }
+            BulkOp::CreateNodes(n) => {
+                opname = if n >= HIGH_DEGREE { "batch_create_nodes_large" } else { "batch_create_nodes" };
+                let res = g.batch_create_nodes((0..n).map(|_| NodeInput::new(vec!["Leaf".to_string()], props_v(1))).collect());
+                trace.push(format!("batch_create_nodes({})={:?}", n, res.as_ref().map(|b| (b.created_ids.first().copied(), b.created_ids.last().copied())).map_err(|e| e.to_string())));
+                *stats.entry("bulk_create_nodes_calls").or_insert(0) += 1;
+                match res {
+                    Ok(b) => {
+                        if b.created_ids.len() != n {
+                            fail!(opname, "create-returned-wrong-number-of-ids", format!("{} nodes requested, {} ids returned", n, b.created_ids.len()));
+                        }
+                        for &id in &b.created_ids {
+                            if !m.nodes.insert(id) || dead_nodes.contains(&id) {
+                                fail!(opname, "node-id-reused", format!("batch_create_nodes returned id {} which is already in use", id));
+                            }
+                        }
+                    }
+                    Err(e) => fail!(opname, "op-result-unexpected", format!("batch_create_nodes({}) failed: {}", n, e)),
+                }
+            }
+            BulkOp::DeleteNodes(ids) => {
+                let deg = degrees(&m);
+                let listed: BTreeSet<u64> = ids.iter().copied().filter(|id| m.nodes.contains(id)).collect();
+                let high: Vec<u64> = listed.iter().copied().filter(|n| deg.get(n).copied().unwrap_or(0) >= HIGH_DEGREE).collect();
+                opname = if high.is_empty() { "batch_delete_nodes" } else { "batch_delete_nodes_highdegree" };
+                // evidence: which shapes of list were really executed
+                let adjacent = m.edges.values().any(|e| e.from != e.to && listed.contains(&e.from) && listed.contains(&e.to));
+                let pos = |n: u64| ids.iter().position(|&x| x == n).unwrap_or(usize::MAX);
+                let (mut high_with_nb, mut nb_first, mut high_first) = (false, false, false);
+                for &h in &high {
+                    for nb in m.neighbors(h, None, Direction::Both) {
+                        if listed.contains(&nb) {
+                            high_with_nb = true;
+                            if pos(nb) < pos(h) {
+                                nb_first = true;
+                            } else {
+                                high_first = true;
+                            }
+                        }
+                    }
+                }
+                *stats.entry("bulk_delete_nodes_calls").or_insert(0) += 1;
+                *stats.entry("bulk_node_lists_with_adjacent_nodes").or_insert(0) += adjacent as u64;
+                *stats.entry("bulk_node_lists_with_highdegree_node").or_insert(0) += !high.is_empty() as u64;
+                *stats.entry("bulk_node_lists_highdegree_node_and_neighbour").or_insert(0) += high_with_nb as u64;
+                *stats.entry("bulk_node_lists_neighbour_before_highdegree_node").or_insert(0) += nb_first as u64;
+                *stats.entry("bulk_node_lists_highdegree_node_before_neighbour").or_insert(0) += high_first as u64;
+                *stats.entry("bulk_node_lists_with_repeated_or_unknown_id").or_insert(0) += (listed.len() != ids.len()) as u64;
+                touching_deletions += adjacent as u64;
+                let shown: Vec<String> = ids.iter().map(|id| format!("{}[{}]", id, if m.nodes.contains(id) { format!("{} edges", deg.get(id).copied().unwrap_or(0)) } else { "absent".to_string() })).collect();
+                let res = g.batch_delete_nodes(ids.clone());
+                trace.push(format!("batch_delete_nodes({})={:?}", shown.join(","), res.as_ref().map(|b| (&b.deleted_ids, b.failed.iter().map(|f| format!("#{} id {:?}: {}", f.index, f.id, f.cause)).collect::<Vec<_>>())).map_err(|e| e.to_string())));
+                // "deleting a node removes all of its edges": every listed node that existed is gone with its edges
+                for &id in &ids {
+                    if m.nodes.remove(&id) {
+                        dead_nodes.push(id);
+                        let inc: Vec<u64> = m.edges.iter().filter(|(_, e)| e.from == id || e.to == id).map(|(&i, _)| i).collect();
+                        for e in inc {
+                            m.edges.remove(&e);
+                            dead_edges.push(e);
+                        }
+                    }
+                }
+                match res {
+                    Ok(b) => {
+                        let reported: BTreeSet<u64> = b.deleted_ids.iter().copied().collect();
+                        if reported != listed {
+                            result_complaint = Some(format!("batch_delete_nodes({:?}): the nodes {:?} of the list existed, the call reports {:?} as deleted (failed: {:?})", ids, listed, b.deleted_ids, b.failed));
+                        }
+                    }
+                    Err(e) => result_complaint = Some(format!("batch_delete_nodes({:?}) = Err({}) although it reports failures per item", ids, e)),
+                }
+            }
+            BulkOp::DeleteEdges(ids) => {
+                let deg = degrees(&m);
+                let listed: BTreeSet<u64> = ids.iter().copied().filter(|id| m.edges.contains_key(id)).collect();
+                let mut ends: HashMap<u64, usize> = HashMap::new();
+                for id in &listed {
+                    let e = &m.edges[id];
+                    *ends.entry(e.from).or_default() += 1;
+                    if e.to != e.from {
+                        *ends.entry(e.to).or_default() += 1;
+                    }
+                }
+                let sharing = ends.values().any(|&c| c >= 2);
+                let on_high = ends.keys().any(|n| deg.get(n).copied().unwrap_or(0) >= HIGH_DEGREE);
+                opname = if on_high { "batch_delete_edges_highdegree" } else { "batch_delete_edges" };
+                *stats.entry("bulk_delete_edges_calls").or_insert(0) += 1;
+                *stats.entry("bulk_edge_lists_sharing_an_endpoint").or_insert(0) += sharing as u64;
+                *stats.entry("bulk_edge_lists_on_highdegree_node").or_insert(0) += on_high as u64;
+                touching_deletions += sharing as u64;
+                let res = g.batch_delete_edges(ids.clone());
+                trace.push(format!("batch_delete_edges({:?})={:?}", ids, res.as_ref().map(|b| (&b.deleted_ids, b.failed.iter().map(|f| format!("#{} id {:?}: {}", f.index, f.id, f.cause)).collect::<Vec<_>>())).map_err(|e| e.to_string())));
+                for &id in &ids {
+                    if m.edges.remove(&id).is_some() {
+                        dead_edges.push(id);
+                    }
+                }
+                match res {
+                    Ok(b) => {
+                        let reported: BTreeSet<u64> = b.deleted_ids.iter().copied().collect();
+                        if reported != listed {
+                            result_complaint = Some(format!("batch_delete_edges({:?}): the edges {:?} of the list existed, the call reports {:?} as deleted (failed: {:?})", ids, listed, b.deleted_ids, b.failed));
+                        }
+                    }
+                    Err(e) => result_complaint = Some(format!("batch_delete_edges({:?}) = Err({}) although it reports failures per item", ids, e)),
+                }
+            }
+            BulkOp::DeleteNode(id) => {
+                let d = degrees(&m).get(&id).copied().unwrap_or(0);
+                opname = if d >= HIGH_DEGREE { "delete_node_highdegree" } else { "delete_node" };
+                let res = g.delete_node(id);
+                trace.push(format!("delete_node({}) [{} edges]={:?}", id, d, res.as_ref().map_err(|e| e.to_string())));
+                match (res, m.nodes.contains(&id)) {
+                    (Ok(()), true) => {
+                        m.nodes.remove(&id);
+                        dead_nodes.push(id);
+                        let inc: Vec<u64> = m.edges.iter().filter(|(_, e)| e.from == id || e.to == id).map(|(&i, _)| i).collect();
+                        for e in inc {
+                            m.edges.remove(&e);
+                            dead_edges.push(e);
+                        }
+                    }
+                    (Err(GraphError::NodeNotFound(_)), false) => {}
+                    (other, exists) => fail!(opname, "op-result-unexpected", format!("delete_node({}) = {:?} (node exists: {})", id, other.map_err(|e| e.to_string()), exists)),
+                }
+            }
+            BulkOp::DeleteEdge(id) => {
+                opname = "delete_edge";
+                let res = g.delete_edge(id);
+                trace.push(format!("delete_edge({})={:?}", id, res.as_ref().map_err(|e| e.to_string())));
+                match (res, m.edges.contains_key(&id)) {
+                    (Ok(()), true) => {
+                        m.edges.remove(&id);
+                        dead_edges.push(id);
+                    }
+                    (Err(GraphError::EdgeNotFound(_)), false) => {}
+                    (other, exists) => fail!(opname, "op-result-unexpected", format!("delete_edge({}) = {:?} (edge exists: {})", id, other.map_err(|e| e.to_string()), exists)),
+                }
+            }
+            BulkOp::UpdateNodes(ids) => {
+                opname = "batch_update_nodes";
+                let all_exist = ids.iter().all(|id| m.nodes.contains(id));
+                let input = ids.iter().map(|&id| (id, if rng.bool() { Some(vec!["M".to_string()]) } else { None }, props_v(rng.range(10, 99)))).collect();
+                let res = g.batch_update_nodes(input);
+                trace.push(format!("batch_update_nodes({:?})={:?}", ids, res.as_ref().map_err(|e| e.to_string())));
+                *stats.entry("bulk_update_nodes_calls").or_insert(0) += 1;
+                if let (Err(e), true) = (&res, all_exist) {
+                    fail!(opname, "op-result-unexpected", format!("batch_update_nodes({:?}) of existing nodes failed: {}", ids, e));
+                }
+            }
+            BulkOp::ReadDeleted => {
+                opname = "read_deleted";
+                if let Some(&id) = dead_nodes.last() {
+                    if g.node_exists(id) || g.edges_of(id, Direction::Both).is_ok() || g.out_degree(id).is_ok() {
+                        fail!(opname, "deleted-node-still-answers", format!("node {} was deleted but node_exists/edges_of/out_degree still answer", id));
+                    }
+                }
+                if let Some(&id) = dead_edges.last() {
+                    if g.get_edge(id).is_ok() {
+                        fail!(opname, "deleted-edge-still-readable", format!("edge {} was deleted (directly or with its node) but get_edge succeeds", id));
+                    }
+                }
+            }
+        }
+        if !check {
+            continue;
+        }
+        calls_checked += 1;
+        if let Some((kind, detail)) = bulk_compare(&g, &mut m, adopt_extra, &mut rng, &mut counters) {
+            fail!(opname, kind, detail);
+        }
+        if let Some(c) = result_complaint {
+            fail!(opname, "op-result-unexpected", c);
+        }
+        max_degree = max_degree.max(degrees(&m).values().copied().max().unwrap_or(0));
+    }
+    for (k, v) in counters.iter().chain(stats.iter()) {
+        r.count(k, *v);
+    }
+    r.count("bulk_programs", 1);
+    r.count("bulk_calls_checked", calls_checked);
+    r.count_max("max:bulk_degree", max_degree as u64);
+    r.eval(hash_str(&trace.join(";")), touching_deletions > 0);
+    if r.want_sample() && rng.chance(1, 40) {
+        r.sample(json!({"part": "bulk", "case_seed": case_seed, "calls_checked": calls_checked, "max_degree": max_degree, "final_nodes": m.nodes.len(), "final_edges": m.edges.len(),
+            "trace_tail": trace.iter().rev().take(6).rev().collect::<Vec<_>>() }));
+    }
+}
+
+// ------------------------------------------------------------------------------------------------
 
 fn main() {
     let args = Args::parse();
@@ -1479,6 +2044,7 @@ fn main() {
     let run_stress = part == "all" || part == "concurrent" || part == "stress";
     let run_det = part == "all" || part == "concurrent" || part == "det";
     let run_batch = part == "all" || part == "concurrent" || part == "batch";
+    let run_bulk = part == "all" || part == "bulk";
     let mut total = Report::new();
     total.max_samples = 9;
 
@@ -1501,6 +2067,19 @@ fn main() {
                 }
             }
             "det" => det_case(seed, rp["scenario"].as_u64().map(|x| x as usize), &mut total),
+            "bulk" => {
+                // deterministic except for the order inside delete_node's internal rayon path
+                for _ in 0..args.extra_u64("replay-tries", 300).min(50) {
+                    let mut r = Report::new();
+                    bulk_case(seed, rp["deep"].as_bool().unwrap_or(false), &mut r);
+                    let hit = r.violations_total > 0;
+                    total.merge(r);
+                    total.count("replay_attempts", 1);
+                    if hit {
+                        break;
+                    }
+                }
+            }
             "batch" => {
                 // a workload, not a schedule: repeat it until it shows the violation again
                 for i in 0..args.extra_u64("replay-tries", 300) {
@@ -1572,10 +2151,24 @@ fn main() {
         floors.push(("batch_calls_overlapping_another_create", 2_000));
         floors.push(("batch_ids_handed_out", 30_000));
     }
+    if run_bulk {
+        let deep = !args.quick();
+        let n = args.by_tier(2_500u64, 40_000u64);
+        let rep = par_cases(args.threads, args.seed ^ 0xB01C, n, args.budget(12, 200), |_i, s, r| bulk_case(s, deep, r));
+        total.max_samples = total.samples.len().max(total.max_samples) + 2;
+        total.merge(rep);
+        floors.push(("bulk_programs", 100));
+        floors.push(("bulk_calls_checked", 1_000));
+        floors.push(("bulk_node_lists_with_adjacent_nodes", 100));
+        floors.push(("bulk_node_lists_neighbour_before_highdegree_node", 20));
+        floors.push(("bulk_node_lists_highdegree_node_before_neighbour", 20));
+        floors.push(("bulk_edge_lists_sharing_an_endpoint", 100));
+        floors.push(("bulk_edge_lists_on_highdegree_node", 20));
+    }
 
     let meta = Meta {
         property: "C05",
-        rule: "seq: one random program of 20-80 operations (create/update/delete node and edge; directed, undirected, self-loop and parallel edges; nonexistent targets; a quarter of the programs add a 100-140 edge burst on one hub and delete the hub) with every structural read compared with a reference multigraph after every operation; distinct by the hash of the executed trace, non-trivial if >=10 operations ran and at least one edge was deleted. stress: one round = fresh engine, 1-3 hubs, 2-8 threads x 15-60 operations (four mixes: create only / +delete_edge / +delete_node,create_node / +update) with seeded jitter inside the adjacency read-modify-write; judged at quiescence by the walker on the engine's own all_nodes/all_edges plus edge conservation from the recorded history; distinct by the hash of the observed invocation order, non-trivial if operations of different threads overlapped in time. det: nine two-thread schedules with thread A parked inside the adjacency read-modify-write while B runs; same oracle. batch: one round = fresh engine, 2-8 threads x 150-650 short calls on a private ring of 8-32 nodes per thread plus 2-4 shared nodes (batch_create_edges of 1-3 edges, create_edge, batch_create_nodes, create_node; flavours add batch_delete_edges/delete_edge/batch_update_nodes or delete_node/batch_delete_nodes on a victim pool); at quiescence every id returned by a successful creation must be unique across threads and the record under it must be the one that call created (endpoints, type, direction, per-call payload), then the walker; non-trivial if a batch creation overlapped another thread's creation in time.",
+        rule: "seq: one random program of 20-80 operations (create/update/delete node and edge; directed, undirected, self-loop and parallel edges; nonexistent targets; a quarter of the programs add a 100-140 edge burst on one hub and delete the hub) with every structural read compared with a reference multigraph after every operation; distinct by the hash of the executed trace, non-trivial if >=10 operations ran and at least one edge was deleted. stress: one round = fresh engine, 1-3 hubs, 2-8 threads x 15-60 operations (four mixes: create only / +delete_edge / +delete_node,create_node / +update) with seeded jitter inside the adjacency read-modify-write; judged at quiescence by the walker on the engine's own all_nodes/all_edges plus edge conservation from the recorded history; distinct by the hash of the observed invocation order, non-trivial if operations of different threads overlapped in time. det: nine two-thread schedules with thread A parked inside the adjacency read-modify-write while B runs; same oracle. batch: one round = fresh engine, 2-8 threads x 150-650 short calls on a private ring of 8-32 nodes per thread plus 2-4 shared nodes (batch_create_edges of 1-3 edges, create_edge, batch_create_nodes, create_node; flavours add batch_delete_edges/delete_edge/batch_update_nodes or delete_node/batch_delete_nodes on a victim pool); at quiescence every id returned by a successful creation must be unique across threads and the record under it must be the one that call created (endpoints, type, direction, per-call payload), then the walker; non-trivial if a batch creation overlapped another thread's creation in time. bulk: one single-threaded program = fresh engine, 1-3 hubs with a fan of 0-170 (thorough: 0-400) edges each to 3-16 (thorough: 3-42) leaves, to the other hubs and to themselves (fans below, at and above the 100-edge threshold of delete_node's parallel branch; built by batch_create_edges in one piece, in chunks, or edge by edge), then 4-13 calls: batch_delete_nodes of a node with some or all of its neighbours in every order (plus unrelated, repeated, already deleted and never created ids), batch_delete_edges of some or all edges of one node, batch_create_edges (regrowing a hub; sometimes refused for a missing endpoint), batch_create_nodes (also >= 100), batch_update_nodes, single delete_node/delete_edge/create_edge; after every call the walker on the engine's own all_nodes/all_edges, then node set, edge set and edge records against the reference multigraph, then the ids reported as deleted against the listed ids that existed; distinct by the hash of the executed trace, non-trivial if at least one bulk deletion listed two adjacent nodes or two edges sharing an endpoint.",
         assumptions: vec![
             "a node is never judged to be (or not to be) its own neighbour: self is removed from both sides before neighbour/traverse sets are compared".into(),
             "out_degree/in_degree are compared with the number of distinct existing edges in the respective list (an undirected self-loop counts once per list), which is what edges_of returns".into(),
@@ -1583,6 +2176,8 @@ fn main() {
             "in concurrent rounds the signature of a structural finding (conc:adjacency-lost-update / conc:delete_node-vs-create_edge / conc:update_edge-vs-delete) is derived from which recorded operations overlapped in time with the creation/removal of the offending edge; the verdict itself does not depend on it".into(),
             "batch part: only ids returned by successful calls are judged; an edge is exempt from the record check if a deletion targeted it or one of its endpoints; call intervals are thread-local monotonic clock reads used for evidence (overlap counters) and for naming the cause in a signature, never for the verdict".into(),
             "the raw `node:N:out|in` list is read through engine.store() only to name the orphan id in a report, never to decide".into(),
+            "bulk part: a bulk deletion is held to the same standard as the single call (seq part): every listed node / edge that existed before the call is gone afterwards, a listed node with all its edges, and is reported in deleted_ids; ids that did not exist (never created, deleted earlier, or repeated later in the same list) must not be reported as deleted; nothing is demanded about the order or the wording of the per-item failures. After a creation batch that returned an error (one endpoint missing) only losses are judged and whatever the engine holds in addition is taken over into the model, because the statement does not say whether such a call is all-or-nothing".into(),
+            "bulk part: the counters bulk_node_lists_* / bulk_edge_lists_* describe the shape of the executed id lists (degrees taken from the model just before the call) and are evidence only".into(),
         ],
         floors,
         exhaustive: false,
